@@ -272,17 +272,62 @@ def known_findings(chk):
             chk.known_finding(e, min(col) < 0, observed=str(col))
 
 
+def incremental_gti(chk, tagname):
+    """a GTI list built one interval at a time (orbit by orbit), looked at in between (total, printout): at every stage the total good time is
+    the sum of the intervals it holds, and ONTIME of a file written with it is the sum of its GTI rows"""
+    import evfile
+    from astropy.io import fits
+    from ixpeobssim.evt.gti import xGTIList
+    g = rng(tagname)
+    for k in range(3 if chk.tier == 'quick' else 30):
+        n = int(g.integers(2, 6))
+        cuts = numpy.sort(g.uniform(0., 5000., 2 * n))
+        gtis = [(float(cuts[2 * i]), float(cuts[2 * i + 1])) for i in range(n)]
+        gl = xGTIList(0., 5000.)
+        look = [bool(g.integers(0, 2)) for _ in gtis]
+        chk.case(dict(op='incremental-gti', gtis=len(gtis), queried_between=look), nontrivial=any(look[:-1]))
+        ok = True
+        for i, (a, b) in enumerate(gtis):
+            gl.append_gti(a, b)
+            if look[i]:
+                tot, _ = gl.total_good_time(), str(gl)
+                exp = sum(y - x for x, y in gtis[:i + 1])
+                if abs(tot - exp) > 1e-9 * max(1., exp):
+                    chk.fail('impl', 'xGTIList built incrementally: after %d intervals total_good_time() = %r, the intervals add up to %r (queried after each of %s)' % (
+                        i + 1, tot, exp, [j + 1 for j in range(i + 1) if look[j]]), dict(oracle='incremental-gti', gtis=gtis, look=look))
+                    ok = False
+                    break
+        if not ok:
+            continue
+        exp = sum(y - x for x, y in gtis)
+        with scratch() as d:
+            path = os.path.join(d, 'inc.fits')
+            t = numpy.sort(numpy.concatenate([g.uniform(a, b, 20) for a, b in gtis]))
+            el = evfile.make_event_list(t)
+            kw = evfile.obssim_kwargs(outfile=path, irfname='ixpe:obssim20240101:v13', start_met=0., duration=5000., stop_met=5000., gti_list=gl, deadtime=0.00108,
+                                      timelinedata=False, scdata=False, onorbitcalib=False, charging=False, objname='synthetic')
+            el.write_fits('verif', evfile.FakeRoi(30., 45., 1), evfile.FakeIrf(1), **kw)
+            with fits.open(path) as h:
+                ontime = h[0].header['ONTIME']
+                rows = float(numpy.sum(numpy.array(h['GTI'].data['STOP'], dtype=float) - numpy.array(h['GTI'].data['START'], dtype=float)))
+                deadc = h[0].header['DEADC']
+        if abs(ontime - rows) > 1e-9 * max(1., rows) or abs(rows - exp) > 1e-9 * max(1., exp) or not (0. < deadc <= 1.):
+            chk.fail('impl', 'file written with an incrementally built GTI list: ONTIME = %r, GTI rows add up to %r (intervals %r), DEADC = %r' % (ontime, rows, exp, deadc),
+                     dict(oracle='incremental-gti-file', gtis=gtis, look=look))
+
+
 def main(chk):
     chk.rule = ('exact model-vs-implementation comparison of fill_livetime on dyadic times: 1–5 GTIs (gaps ≥ dead time), per GTI none/one/few/many '
                 'events incl. events exactly on GTI start/stop and calibration-like events in gaps, dead time 0…5 s; independent specification '
                 'evaluated on the implementation where events lie inside GTIs; header keywords through write_fits (with/without on-orbit '
                 'calibration rows); real simulations on synthetic GTIs. non-trivial = ≥ 2 GTIs and ≥ 2 events')
     chk.assumptions = TRUSTED
-    chk.lean(['IxpeVerif.Props.C05'])
+    chk.lean(['IxpeVerif.Props.C05', 'IxpeVerif.Props.StateAudit'])
     n = 300 if chk.tier == 'quick' else 5000
     run_cases(chk, n, 'C05-corr')
     file_level(chk, 12 if chk.tier == 'quick' else 150, 'C05-file')
     simulated(chk, 'C05-sim')
+    incremental_gti(chk, 'C05-inc')
     known_findings(chk)
     return chk.finish(level='proof', trusted=TRUSTED, search=lambda k: run_cases(chk, n, 'C05-search', k))
 
